@@ -129,6 +129,8 @@ def gen_valid(rng, v, cfg, serial, kinds_ops):
         if v.ctype[t] == "LOAD":
             base = H.BASE[v.kind[t]]
             conf = {"table": [[p, base * rng.choice([0.5, 1.0, 2.0])] for p in sub]}
+            if getattr(cfg, "p_wrong_form", 0.0) and rng.random() < cfg.p_wrong_form:
+                conf = {"names": sub}          # a LIST on a load: the documented form for loads is a dict
         else:
             conf = {"names": sub}
         return {"op": o, "name": t, "conf": conf}
@@ -282,8 +284,11 @@ def gen_invalid(rng, v, cfg, serial, kinds_ops):
         rng.shuffle(ph)
         return {"op": o, "phases": [[p, 1.0] for p in ph]}, c
     if o == "set_comp_phases":
-        c = rng.choice(["unknown_target", "bad_type", "loss_component", "loss_component", "target_by_rail"])
+        c = rng.choice(["unknown_target", "bad_type", "loss_component", "loss_component", "target_by_rail", "list_on_load"])
         sl = [x for x in v.names if v.ctype[x] == "SLOSS"]
+        lds = [x for x in v.names if v.ctype[x] == "LOAD"]
+        if c == "list_on_load" and lds:
+            return {"op": o, "name": rng.choice(lds), "conf": {"names": [p for p in H.PHASES if rng.random() < 0.5]}}, c
         if c == "target_by_rail" and v.railvals:
             return {"op": o, "name": rng.choice(v.railvals), "conf": {"names": [rng.choice(H.PHASES)]}}, c
         if c == "loss_component" and sl:
